@@ -200,6 +200,80 @@ def _install_proxies(lock, g):
     lock.time = types.SimpleNamespace(sleep=lambda dt: None, time=lambda: 0.0)
 
 
+def _run_command(spec, g, handlers):
+    """Emulates bin/eups (or bin/eups_setup) for one command line: parse, run (cmd.py / setupcmd.py take and give the
+    locks themselves), process exit.  The start of the command body is announced as the call `work`."""
+    import eups
+    import eups.cmd
+    import eups.setupcmd
+    import eups.hooks
+    state = {"work": False}
+
+    def work():
+        if not state["work"]:
+            state["work"] = True
+            g.say("BODY")
+            g.call("work")
+            g.res("ok")
+
+    import eups.lock as lock
+    give = lock.giveLocks
+
+    def reporting_give(locks, *a, **kw):
+        # cmd.py / setupcmd.py call giveLocks in a finally clause: tell a failed release from a failed command body
+        try:
+            return give(locks, *a, **kw)
+        except BaseException as e:  # noqa
+            g.say("RELFAIL " + type(e).__name__)
+            raise
+    lock.giveLocks = reporting_give
+    real_os.environ["EUPS_PATH"] = ":".join(spec["dirs"])
+    argv = list(spec["argv"])
+    try:
+        if argv[0] == "setup":
+            orig = eups.Eups
+
+            class GatedEups(orig):
+                def __init__(self, *a, **kw):
+                    work()
+                    orig.__init__(self, *a, **kw)
+            eups.Eups = GatedEups
+            eups.setupcmd.eups.Eups = GatedEups
+            cmd = eups.setupcmd.EupsSetup(args=argv[1:], toolname="setup")
+        else:
+            make = eups.cmd.makeEupsCmd
+
+            def gated_make(cmdName, c):
+                ecmd = make(cmdName, c)
+                if ecmd is not None and cmdName not in ("admin", "distrib"):
+                    run = ecmd.run
+
+                    def gated_run():
+                        work()
+                        return run()
+                    ecmd.run = gated_run
+                return ecmd
+            eups.cmd.makeEupsCmd = gated_make
+            cmd = eups.cmd.EupsCmd(args=argv, toolname="eups")
+        eups.hooks.loadCustomization(-1, path=eups.Eups.setEupsPath(path=None, dbz=None))
+        if spec.get("base") == "none":
+            eups.hooks.config.site.lockDirectoryBase = None
+        status = cmd.run()
+        g.say("STATUS %r" % (status,))
+        if state["work"]:
+            g.say("RELOK")
+    except BaseException as e:  # noqa
+        if state["work"]:
+            g.say("BODYFAIL " + type(e).__name__)
+        else:
+            g.say("ACQFAIL " + type(e).__name__)
+    for f, a, kw in reversed(handlers):
+        try:
+            f(*a, **kw)
+        except BaseException as e:  # noqa
+            g.say("RELFAIL " + type(e).__name__)
+
+
 def _child(spec, rfd, wfd):
     """Emulates one eups command: takeLocks; body; [giveLocks]; process exit (atexit handlers)."""
     try:
@@ -225,6 +299,10 @@ def _child(spec, rfd, wfd):
         sink = io.StringIO()
         utils.stdinfo = utils.stdwarn = utils.stderr = sink
         sys.stdout = sys.stderr = sink
+        if spec.get("argv") is not None:
+            _run_command(spec, g, handlers)
+            g.say("END")
+            real_os._exit(0)
         kind = {"E": lock.LOCK_EX, "S": lock.LOCK_SH, "N": None}[spec["kind"]]
         try:
             locks = lock.takeLocks("cmd", list(spec["dirs"]), kind, nolocks=bool(spec.get("nolocks")),
@@ -327,6 +405,12 @@ class Proc:
             elif ln.startswith("HOLD "):
                 self.held = json.loads(ln[5:])
                 self.nlocks = len(self.held)
+            elif ln == "BODY":
+                self.body_from_fs = True
+            elif ln.startswith("STATUS "):
+                self.status = ln[7:]
+            elif ln.startswith("BODYFAIL "):
+                self.bodyfail = ln[9:]          # the command itself failed; its finally clause has released the locks
             elif ln.startswith("ACQFAIL "):
                 self.acqfail = ln[8:]
             elif ln.startswith("RELFAIL "):
@@ -342,6 +426,9 @@ class Proc:
                 self.crash = ln[6:]
 
     _saw_end = False
+    body_from_fs = False
+    status = None
+    bodyfail = None
 
     def go(self, order):
         """Let the announced call execute.  Returns (call name, result class)."""
@@ -406,10 +493,14 @@ def run_schedule(case, phases=None):
     nd = case.get("ndirs", 1)
     multi = nd > 1
     stacks = []
-    for d in range(nd):
-        st = os.path.join(root, "stack%d" % d)
-        os.makedirs(st)
-        stacks.append(st)
+    if any(sp.get("argv") is not None for sp in case["procs"]):
+        stacks, _uds = common.mkstacks(root, nstacks=nd)          # real stacks (ups_db, startup file, EUPS_USERDATA)
+        multi = True
+    else:
+        for d in range(nd):
+            st = os.path.join(root, "stack%d" % d)
+            os.makedirs(st)
+            stacks.append(st)
     base = case.get("base", "default")
     if base == "abs":
         base = os.path.join(root, "locks")
@@ -420,7 +511,7 @@ def run_schedule(case, phases=None):
     try:
         for i, sp in enumerate(specs):
             procs.append(Proc(i, {"kind": sp["kind"], "dirs": [stacks[d] for d in paths[i]], "ntry": sp.get("tries", 0) + 1,
-                                  "explicit": sp.get("explicit", True), "base": base}))
+                                  "explicit": sp.get("explicit", True), "base": base, "argv": sp.get("argv")}))
         pidmap = {str(p.pid): p.index for p in procs}
         for p, sp in zip(procs, specs):
             lp = sp.get("lp")
@@ -451,6 +542,8 @@ def run_schedule(case, phases=None):
                         continue
                     if specs[a]["kind"] != "E":
                         continue
+                    if specs[b]["kind"] == "N":
+                        continue        # no lock requested (lockType None, --nolocks, -h): outside the property by configuration
                     ds = [d for d in procs[a].held if d in paths[b]]
                     if not ds:
                         continue
@@ -470,6 +563,17 @@ def run_schedule(case, phases=None):
                 return
             before = [[inflight(q, d) for d in range(nd)] for q in range(n)]
             name, res = p.go(order)
+            if p.body_from_fs and p.nlocks is None:
+                # a real command line: which locks it holds is read off the file system when its body starts
+                p.held, p.held_kinds = [], []
+                for dd in range(nd):
+                    ld = os.path.join((os.path.join(base, stacks[dd].lstrip("/")) if case.get("base") == "abs" else stacks[dd]), LOCKDIR)
+                    if os.path.isdir(ld):
+                        for f in os.listdir(ld):
+                            if f.endswith(".%d" % p.pid):
+                                p.held.append(dd)
+                                p.held_kinds.append("E" if f.startswith("exclusive-") else "S")
+                p.nlocks = len(p.held)
             c, d = split(name)
             nc, _nd = split(p.pending)
             if d is not None and 0 <= d < nd:
@@ -533,7 +637,9 @@ def run_schedule(case, phases=None):
             residue = []
         return {"executed": executed, "trace": trace, "outcomes": outcomes, "mid": mid, "residue": residue,
                 "violations": viols, "phase_steps": phase_steps,
-                "held": [p.held if p.nlocks is not None else None for p in procs]}
+                "held": [p.held if p.nlocks is not None else None for p in procs],
+                "held_kinds": [getattr(p, "held_kinds", None) for p in procs],
+                "status": [p.status for p in procs]}
     finally:
         for p in procs:
             if not p.ended:
